@@ -518,7 +518,7 @@ func startStack(engine string, eps []epSpec) (*stk, error) {
 	for try := 0; try < 4; try++ {
 		cfg := config.DefaultConfig()
 		cfg.Server.Host = "127.0.0.1"
-		cfg.Server.RequestLogging = false
+		cfg.Server.RequestLogging = true // the default: the logging middleware is part of what production runs
 		cfg.Server.RateLimits.GlobalRequestsPerMinute = 0
 		cfg.Server.RateLimits.PerIPRequestsPerMinute = 0
 		cfg.Server.RateLimits.HealthRequestsPerMinute = 0
